@@ -27,8 +27,12 @@ package csv
 //@   use qpos_lower(in, a-1)
 //@   tags C05
 
+//@ -- csvq(s): the quoted form of a field; csvEscape computes it (its postconditions are the facts about it)
+//@ spec csvq(s Str) Str
+
 //@ func (*CSVTable).csvEscape
 //@   tags C05,C09
+//@   pure csvq(in)
 //@   assigns nothing
 //@   ensures [length] len(result) == qpos(in, len(in)) + 1
 //@   ensures [quotes] result[0] == '"' && result[len(result)-1] == '"'
@@ -44,3 +48,104 @@ package csv
 //@   loop#1 use forall k int :: {qpos(in,k)} qpos_mono(in, k, i)
 //@   loop#1 use qpos_lower(in, i)
 //@   entry unfold qpos(in, 0)
+
+//@ -- ---------------------------------------------------------------------
+//@ -- records on the ghost writer (C05, C15, C09)
+//@ -- ---------------------------------------------------------------------
+
+//@ -- ghost record log: one entry per emitted record: where its chunks start and which cells it shows
+//@ ghost var csvRecN Int
+//@ ghost var csvRecStart (Array Int Int)
+//@ ghost var csvRecCells (Array Int Slice)
+
+//@ -- cellsFresh(cells): no cell is waiting for a recalculation, so Cell.String() is the cached text
+//@ pred cellsFresh(cells []tabular.Cell) = forall i int :: {cells[i].mustCalc} 0 <= i && i < len(cells) ==> !cells[i].mustCalc
+
+//@ func (*CSVTable).emitRow
+//@   tags C05,C15,C09
+//@   requires ct != nil && columnCount >= 1 && columnCount <= 1099511627774 && cellsFresh(cells)
+//@   requires [writer-ok] !Wfailed
+//@   assigns ghost Wn, ghost Wchunk, ghost Wfailed, ghost csvRecN, ghost csvRecStart, ghost csvRecCells
+//@   ensures [too-many-cells-refused] len(cells) > columnCount ==> result != nil && Wn == old(Wn) && csvRecN == old(csvRecN) @C05
+//@   ensures [failing-writer-surfaces] Wfailed ==> result != nil @C15
+//@   ensures [earlier-output-kept] forall k int :: {Wchunk[k]} k < old(Wn) ==> Wchunk[k] === old(Wchunk)[k]
+//@   ensures [record-logged] result == nil ==> !Wfailed && len(cells) <= columnCount && Wn == old(Wn) + columnCount + 1 && csvRecN == old(csvRecN) + 1 && csvRecStart === store(old(csvRecStart), old(csvRecN), old(Wn)) && csvRecCells === store(old(csvRecCells), old(csvRecN), cells) @C05
+//@   ensures [leading-fields] result == nil ==> forall m int :: {Wchunk[m]} old(Wn) <= m && m < old(Wn) + len(cells) - 1 ==> Wchunk[m] === cat(csvq(cells[m - old(Wn)].str), ct.fieldSeparator) @C05
+//@   ensures [last-present-field] result == nil && len(cells) >= 1 ==> Wchunk[old(Wn) + len(cells) - 1] === csvq(cells[len(cells)-1].str) @C05
+//@   ensures [zero-cell-row-first-field-empty] result == nil && len(cells) == 0 ==> Wchunk[old(Wn)] === "\"\"" @C05
+//@   ensures [missing-cells-are-empty-fields] result == nil ==> forall m int :: {Wchunk[m]} old(Wn) + max(len(cells), 1) <= m && m < old(Wn) + columnCount ==> Wchunk[m] === cat(ct.fieldSeparator, "\"\"") @C05
+//@   ensures [record-terminated] result == nil ==> Wchunk[old(Wn) + columnCount] === "\n" @C05
+//@   exit ghost csvRecStart = (result == nil ? store(csvRecStart, csvRecN, old(Wn)) : csvRecStart)
+//@   exit ghost csvRecCells = (result == nil ? store(csvRecCells, csvRecN, cells) : csvRecCells)
+//@   exit ghost csvRecN = (result == nil ? csvRecN + 1 : csvRecN)
+//@   loop#1 invariant 0 <= i && i <= max(len(cells) - 1, 0) && max == len(cells) && !Wfailed && Wn == old(Wn) + i
+//@   loop#1 invariant forall m int :: {Wchunk[m]} old(Wn) <= m && m < old(Wn) + i ==> Wchunk[m] === cat(csvq(cells[m - old(Wn)].str), ct.fieldSeparator)
+//@   loop#1 invariant forall k int :: {Wchunk[k]} k < old(Wn) ==> Wchunk[k] === old(Wchunk)[k]
+//@   loop#1 decreases len(cells) - i
+//@   loop#2 invariant max(len(cells), 1) <= i && i <= columnCount && !Wfailed && Wn == old(Wn) + i
+//@   loop#2 invariant forall m int :: {Wchunk[m]} old(Wn) <= m && m < old(Wn) + len(cells) - 1 ==> Wchunk[m] === cat(csvq(cells[m - old(Wn)].str), ct.fieldSeparator)
+//@   loop#2 invariant len(cells) >= 1 ==> Wchunk[old(Wn) + len(cells) - 1] === csvq(cells[len(cells)-1].str)
+//@   loop#2 invariant len(cells) == 0 ==> Wchunk[old(Wn)] === "\"\""
+//@   loop#2 invariant forall m int :: {Wchunk[m]} old(Wn) + max(len(cells), 1) <= m && m < old(Wn) + i ==> Wchunk[m] === cat(ct.fieldSeparator, "\"\"")
+//@   loop#2 invariant forall k int :: {Wchunk[k]} k < old(Wn) ==> Wchunk[k] === old(Wchunk)[k]
+//@   loop#2 decreases columnCount - i
+
+//@ -- csvRecOK(r, cc, sep): record r of the ghost log consists of cc fields: the quoted text of each cell of the
+//@ -- row it shows, empty fields for the cells the row lacks, separators between them, and a line feed
+//@ pred csvRecOK(r int, cc int, sep Str) = len(csvRecCells[r]) <= cc && (forall m int :: {Wchunk[m]} csvRecStart[r] <= m && m < csvRecStart[r] + len(csvRecCells[r]) - 1 ==> Wchunk[m] === cat(csvq(heap[tabular.Cell.str][fldloc(elemloc(csvRecCells[r], m - csvRecStart[r]), 1)]), sep)) && (len(csvRecCells[r]) >= 1 ==> Wchunk[csvRecStart[r] + len(csvRecCells[r]) - 1] === csvq(heap[tabular.Cell.str][fldloc(elemloc(csvRecCells[r], len(csvRecCells[r]) - 1), 1)])) && (len(csvRecCells[r]) == 0 ==> Wchunk[csvRecStart[r]] === "\"\"") && (forall m int :: {Wchunk[m]} csvRecStart[r] + max(len(csvRecCells[r]), 1) <= m && m < csvRecStart[r] + cc ==> Wchunk[m] === cat(sep, "\"\"")) && Wchunk[csvRecStart[r] + cc] === "\n"
+
+//@ -- tab(ct): the core table a renderer is wrapped around (see the Table interface contracts in package tabular)
+//@ spec tab(ct *CSVTable) *tabular.ATable = ct.Table.(*tabular.ATable)
+
+//@ func (*CSVTable).RenderTo
+//@   tags C05,C15,C09,C14
+//@   requires ct != nil && tbl(ct.Table) && tab(ct).nColumns <= 1099511627774
+//@   requires [writer-ok] !Wfailed
+//@   assigns heap[tabular.propertyImpl.properties], new(tabular.valueProperty), tab(ct).ErrorContainer.errors_, elemscap(tab(ct).ErrorContainer.errors_), ghost cbErrN, ghost cbErrLog, ghost stage, ghost fires, ghost stageR, ghost firesR, ghost stageT, ghost stageC, ghost Wn, ghost Wchunk, ghost Wfailed, ghost csvRecN, ghost csvRecStart, ghost csvRecCells
+//@   ensures [table-still-wellformed] tbl(ct.Table) @C09,C14
+//@   ensures [no-columns-refused] tab(ct).nColumns < 1 ==> result != nil && Wn == old(Wn) @C05
+//@   ensures [failing-writer-surfaces] Wfailed ==> result != nil @C15
+//@   ensures [one-record-per-row] result == nil ==> csvRecN == old(csvRecN) + (tab(ct).headerRow != nil ? 1 : 0) + nonsep(heap[[]*tabular.Row], heap[tabular.Row.isSeparator], tab(ct).rows, len(tab(ct).rows)) @C05
+//@   ensures [header-record-first] result == nil && tab(ct).headerRow != nil ==> csvRecCells[old(csvRecN)] === tab(ct).headerRow.cells @C05
+//@   ensures [rows-in-order] result == nil ==> forall k int :: {tab(ct).rows[k]} 0 <= k && k < len(tab(ct).rows) && !tab(ct).rows[k].isSeparator ==> csvRecCells[old(csvRecN) + (tab(ct).headerRow != nil ? 1 : 0) + nonsep(heap[[]*tabular.Row], heap[tabular.Row.isSeparator], tab(ct).rows, k)] === tab(ct).rows[k].cells @C05
+//@   ensures [every-record-wellformed] result == nil ==> forall r int :: {csvRecStart[r]} old(csvRecN) <= r && r < csvRecN ==> csvRecOK(r, tab(ct).nColumns, ct.fieldSeparator) @C05
+//@   loop#1 invariant -1 <= rangeindex && rangeindex < len(tab(ct).rows) && tbl(ct.Table) && !Wfailed && tab(ct).nColumns == columnCount && columnCount >= 1
+//@   loop#1 invariant csvRecN == old(csvRecN) + (tab(ct).headerRow != nil ? 1 : 0) + nonsep(heap[[]*tabular.Row], heap[tabular.Row.isSeparator], tab(ct).rows, rangeindex + 1)
+//@   loop#1 invariant tab(ct).headerRow != nil ==> csvRecCells[old(csvRecN)] === tab(ct).headerRow.cells
+//@   loop#1 invariant forall k int :: {tab(ct).rows[k]} 0 <= k && k <= rangeindex && !tab(ct).rows[k].isSeparator ==> csvRecCells[old(csvRecN) + (tab(ct).headerRow != nil ? 1 : 0) + nonsep(heap[[]*tabular.Row], heap[tabular.Row.isSeparator], tab(ct).rows, k)] === tab(ct).rows[k].cells
+//@   loop#1 invariant forall r int :: {csvRecStart[r]} old(csvRecN) <= r && r < csvRecN ==> csvRecOK(r, tab(ct).nColumns, ct.fieldSeparator)
+//@   loop#1 invariant forall r int :: {csvRecStart[r]} old(csvRecN) <= r && r < csvRecN ==> csvRecStart[r] + tab(ct).nColumns + 1 <= Wn
+//@   loop#1 decreases len(tab(ct).rows) - rangeindex
+//@   loop#1 unfold nonsep(heap[[]*tabular.Row], heap[tabular.Row.isSeparator], tab(ct).rows, rangeindex + 2)
+//@   loop#1 use nonsep_bounds(heap[[]*tabular.Row], heap[tabular.Row.isSeparator], tab(ct).rows, rangeindex + 1)
+//@   loop#1 use forall k int :: {nonsep(heap[[]*tabular.Row], heap[tabular.Row.isSeparator], tab(ct).rows, k)} nonsep_mono(heap[[]*tabular.Row], heap[tabular.Row.isSeparator], tab(ct).rows, k, rangeindex + 1)
+//@   entry unfold nonsep(heap[[]*tabular.Row], heap[tabular.Row.isSeparator], tab(ct).rows, 0)
+
+//@ func Wrap
+//@   tags C05,C10,C09
+//@   assigns new(CSVTable)
+//@   ensures result != nil && fresh(result) && result.Table === t && result.fieldSeparator == ","
+
+//@ func New
+//@   tags C10,C09
+//@   assigns new(CSVTable), new(tabular.ATable), new(tabular.ErrorContainer), new(tabular.column)
+//@   ensures result != nil && fresh(result) && tbl(result.Table) && result.fieldSeparator == "," && len(tab(result).rows) == 0 && tab(result).nColumns == 0
+
+//@ func (*CSVTable).Render
+//@   tags C09,C10
+//@   requires ct != nil && tbl(ct.Table) && tab(ct).nColumns <= 1099511627774
+//@   assigns heap[tabular.propertyImpl.properties], new(tabular.valueProperty), tab(ct).ErrorContainer.errors_, elemscap(tab(ct).ErrorContainer.errors_), ghost cbErrN, ghost cbErrLog, ghost stage, ghost fires, ghost stageR, ghost firesR, ghost stageT, ghost stageC, ghost Wn, ghost Wchunk, ghost Wfailed, ghost csvRecN, ghost csvRecStart, ghost csvRecCells
+//@   ensures [error-means-no-text] result1 != nil ==> result0 == "" @C09
+//@   ensures [table-still-wellformed] tbl(ct.Table)
+//@   call RenderTo before ghost Wfailed = false
+
+//@ func Render
+//@   tags C09,C10
+//@   requires tbl(t) && t.(*tabular.ATable).nColumns <= 1099511627774
+//@   ensures [error-means-no-text] result1 != nil ==> result0 == "" @C09
+
+//@ func RenderTo
+//@   tags C09,C10,C15
+//@   requires tbl(t) && t.(*tabular.ATable).nColumns <= 1099511627774
+//@   requires [writer-ok] !Wfailed
+//@   ensures [failing-writer-surfaces] Wfailed ==> result != nil @C15
